@@ -26,12 +26,12 @@ const (
 
 // Program is the loaded repository.
 type Program struct {
-	Repo  string
-	Fset  *token.FileSet
-	All   []*packages.Package          // every package reachable (deps included)
-	Moq   map[string]*packages.Package // the four generator packages by path
+	Repo   string
+	Fset   *token.FileSet
+	All    []*packages.Package          // every package reachable (deps included)
+	Moq    map[string]*packages.Package // the four generator packages by path
 	ByPath map[string]*packages.Package
-	decls map[*types.Func]*ast.FuncDecl
+	decls  map[*types.Func]*ast.FuncDecl
 	infoOf map[*types.Package]*types.Info
 }
 
